@@ -66,12 +66,27 @@ Theorem C20_sim_check_sound : forall c ops s b,
 Proof. exact sim_check_sound. Qed.
 Print Assumptions C20_sim_check_sound.
 
-(* The executable property evaluated by the harness on the implementation's answers holds of the model on
-   every decodable input whose hash column comes from one function. *)
-Theorem C20_prop_of_model : forall v c ops (hash : key -> Z),
-  dec_input v = Some (c, ops) -> Forall (consistent hash) ops -> prop_C20 v (run_C20 v) = true.
+(* CENTRAL: the executable property evaluated by the harness on the implementation's answers holds of the
+   model on every well-formed wire input.  wf_C20 (executable): the input decodes and, in set mode, the hash
+   column is a function of the key (same key => same hash value), which is what any hashFunc produces. *)
+Theorem C20_prop_of_model : forall v, wf_C20 v = true -> kf_C20 v = 0 -> prop_C20 v (run_C20 v) = true.
 Proof. exact prop_C20_of_model. Qed.
 Print Assumptions C20_prop_of_model.
+Example C20_wf_corpus_cases :
+  wf_C20 (VL [VZ 2; VZ 2; VZ 1; VZ 3; VL [VL [VZ 1; VB [1;1]; VZ 1]; VL [VZ 1; VB [1]; VZ 1]; VL [VZ 4];
+              VL [VZ 3; VB [1]; VZ 1]; VL [VZ 2; VB [1;1]; VZ 1]; VL [VZ 1; VB [0]; VZ 0]; VL [VZ 3; VB [1;1]; VZ 1]; VL [VZ 4]]]) = true
+  /\ wf_C20 (VL [VZ 2; VZ 2; VZ 1; VZ (-1); VL [VL [VZ 1; VZ 0; VB [1;1]]; VL [VZ 2; VZ 0]; VL [VZ 1; VZ 2; VB [1;1]]; VL [VZ 3]]]) = true.
+Proof. exact wf_C20_example. Qed.
+
+(* The byte pools used directly (byte_pool.BytePool / FixedBytePool: Set, Get, MaxElemSize): for every
+   sequence of operations with non-negative indices the slot model answers like a last-write-wins map -- Get
+   returns the key of the last accepted Set on that index (initially empty / elemSize zero bytes), Set refuses
+   an index >= elemNum and a key of the wrong length without changing anything. *)
+Theorem C20_pool_last_write_wins : forall c ops sl m,
+  lenZ sl = cap c -> (forall j, 0 <= j < cap c -> getK sl j = alookup j m (pool_default c)) ->
+  forallb pop_ok ops = true -> pool_run c sl ops = psp_run c m ops.
+Proof. exact pool_refines. Qed.
+Print Assumptions C20_pool_last_write_wins.
 
 (* Non-vacuity: capacity 3, constant hash (one chain): fill, overflow, remove from the middle of the chain,
    free-list reuse, over-long key; and a fixed-length set refusing a short key. *)
